@@ -19,7 +19,7 @@ from sim.world import HarnessError, StepCap, Quiescent
 
 PROP = "C12"
 LEVEL = "fault_enumeration"
-COUNTS = {"quick": 25000, "thorough": 600000}
+COUNTS = {"quick": 20000, "thorough": 600000}
 MAX_SECONDS = {"quick": 100, "thorough": 1500}
 DET_EVERY = {"quick": 30, "thorough": 300}
 SHRINK_BUDGET = 500
